@@ -14,7 +14,7 @@ RULE = ('real OpenFilterLineage(client=capturing fake) as Filter.emitter on the 
 ASSUMPTIONS = ['one emitter object per run (the run id is created with the OpenFilterLineage object; two runs in one process sharing Filter.emitter share the id)',
                '"ended cleanly" is read as: Filter.run returned normally (C08: returns for clean exits, raises for errors); a stop event (signal) and an obeyed, eaten propagated error therefore end in COMPLETE; anything leaving run() - an Exception, a KeyboardInterrupt, exit(reason, SystemExit(n)) - in ABORT',
                'a run whose constructor fails, or whose subclass init() fails before Filter.init() is reached, emits nothing (no START): stated boundary',
-               'heartbeat steps are atomic with respect to emit_stop (both hold OpenFilterLineage._lock in the patched code); a killed process emits nothing',
+               'heartbeat steps are atomic with respect to emit_stop - no longer assumed: probed on the real class on every run (atomic_probe parks the heartbeat thread inside its step at three points while the owner ends the run, 12 probes); a killed process emits nothing',
                'event payloads (facets, job name, producer, timestamps) are not compared']
 TRUSTED = ['the gate that parks the heartbeat thread in _stop_event.wait() (harness) realises the schedule of the model\'s interleave']
 
@@ -131,6 +131,66 @@ def oracle(case, o):
     return out
 
 
+PARK_POINTS = ['stop-check', 'facet-build', 'post']
+
+
+def atomic_probe(point, clean, via_stop_hb=False):
+    """Checks the atomicity the model's interleaving assumes, on the real class: the heartbeat thread is parked *inside* its step
+    (right after its stop check / while it builds the facets / just before the event is posted) and the owner of the run ends it
+    meanwhile.  If the step is atomic the owner blocks until the heartbeat is released, otherwise it overtakes it - either way
+    the recorded history must still be START RUNNING* terminal.  Timing only decides how long the probe takes, not its verdict."""
+    from openfilter.observability import lineage as LM
+    cap = Cap(); em = LM.OpenFilterLineage(client=cap, interval=1); em.interval = 0.001
+    parked, go = threading.Event(), threading.Event()
+    hb = lambda: threading.current_thread() is em._thread
+    n = {'steps': 0}
+    def park():
+        if hb() and not parked.is_set() and n['steps'] >= 1: parked.set(); go.wait(5)
+    class Ev(threading.Event):
+        def is_set(s):
+            r = super().is_set()
+            if point == 'stop-check' and hb() and not r and em._lock.locked(): park()
+            return r
+    em._stop_event = Ev()
+    post = cap.emit
+    def emit(e):
+        if hb():
+            if point == 'post': park()
+            n['steps'] += 1
+        post(e)
+    cap.emit = emit
+    real_facet = LM.create_openfilter_facet_with_fields
+    def facet(*a, **k):
+        if point == 'facet-build': park()
+        return real_facet(*a, **k)
+    LM.create_openfilter_facet_with_fields = facet
+    try:
+        em.emit_start({'probe': 1}); em.start_lineage_heart_beat()
+        got = parked.wait(3)
+        def end():
+            if via_stop_hb: em.stop_lineage_heart_beat()
+            em.emit_stop(clean)
+        t = threading.Thread(target=end, daemon=True); t.start(); t.join(0.25)
+        overtook = not t.is_alive()
+        go.set(); t.join(5)
+        if em._thread: em._thread.join(2)
+    finally:
+        LM.create_openfilter_facet_with_fields = real_facet
+        go.set()
+    E = [x for x, _ in cap.ev]
+    return {'events': E, 'parked': got, 'owner_overtook_heartbeat': overtook}
+
+
+def probe_oracle(o, clean):
+    E = o['events']; term = [i for i, t in enumerate(E) if t in ('COMPLETE', 'ABORT')]
+    if not E or E[0] != 'START' or E.count('START') != 1: return 'probe:start', 'START missing or repeated'
+    if len(term) != 1: return 'probe:terminal-count', f'{len(term)} terminal events'
+    if term[0] != len(E) - 1: return 'probe:after-terminal', 'a heartbeat step that had passed its stop check emitted RUNNING after the terminal event'
+    if any(t != 'RUNNING' for t in E[1:-1]): return 'probe:middle', 'something other than RUNNING in the middle'
+    if (E[-1] == 'COMPLETE') != bool(clean): return 'probe:wrong-terminal', f'emit_stop(clean={clean}) ended with {E[-1]}'
+    return None
+
+
 def gen_cases(rng, scale=1):
     cases = []
     singles = L.single_point_scripts(2)
@@ -165,9 +225,9 @@ def run(ctx):
     logging.disable(logging.CRITICAL)
     res, rng = ctx.result, ctx.rng
     if ctx.replay:
-        cases = [ctx.replay['case']] if ctx.replay.get('case') else []
+        cases = [ctx.replay['case']] if ctx.replay.get('case') and 'probe' not in ctx.replay['case'] else []
     else:
-        cases = [c['case'] if 'case' in c else c for c in ctx.corpus] + gen_cases(rng, 16 if ctx.thorough else 4 if ctx.escalate else 1)
+        cases = [c['case'] if 'case' in c else c for c in ctx.corpus if 'probe' not in (c.get('case') or c)] + gen_cases(rng, 16 if ctx.thorough else 4 if ctx.escalate else 1)
     impl = [run_impl(c) for c in cases]
     model = None
     if ctx.driver:
@@ -191,6 +251,19 @@ def run(ctx):
                 mi, mm = {'events': o['events'], 'ops': o['ops'], 'returns': o['returns']}, {'events': m['events'], 'ops': m['ops'], 'returns': m['returns']}; ok = mi == mm
             if ok: res.traces_validated += 1
             elif not viol: res.disagreements.append({'point': 'c18.history', 'case': c, 'impl': mi, 'model': mm if mm is not None else m})
+    # atomicity of a heartbeat step with respect to the end of the run (the assumption behind the model's interleaving)
+    probes = {}
+    if ctx.replay and ctx.replay.get('case', {}).get('probe'): plist = [ctx.replay['case']['probe']]
+    elif ctx.replay: plist = []
+    else: plist = [[p, c, v] for p in PARK_POINTS for c in (True, False) for v in (False, True)]
+    for point, clean, via in plist:
+        o = atomic_probe(point, clean, via)
+        res.note({'probe': [point, clean, via]}, o['parked'])
+        probes[f'{point}:{"clean" if clean else "abort"}{":hb_stop-first" if via else ""}'] = {'parked': o['parked'], 'owner_overtook_heartbeat': o['owner_overtook_heartbeat'], 'events': ' '.join(o['events'])}
+        bad = probe_oracle(o, clean)
+        if bad: res.violations.append(Violation(f'{bad[0]}:{point}', f'{bad[1]}: {" ".join(o["events"])}', {'probe': [point, clean, via]}))
+        elif o['parked']: res.traces_validated += 1
+    res.extra['heartbeat_atomicity_probes'] = probes
     res.extra['endings'] = ends
     res.extra['terminal_events'] = terms
     res.extra['running_events_per_run'] = nrun
